@@ -187,10 +187,11 @@ Example process_ex :
   /\ process (PTup [PLeaf LNone]) [PLeaf (ATd [2])] = PRej RNoBatched.
 Proof. repeat split; reflexivity. Qed.
 
-(* outputs: a tensordict output with 0 <= out_dim <= its batch rank always comes back with B inserted at out_dim *)
-Theorem unwrap_td_ok B b fs o : o <= length b -> unwrap1 B (OTd b fs) (LInt (Z.of_nat o)) = inr (RTd (insert_at b o B)).
+(* outputs: a tensordict output comes back with B inserted at the position out_dim names (negative ones included), whatever
+   its leaves; an out_dim that names no position is refused *)
+Lemma remove_td_raw_ok B b fs o : o <= length b -> remove_td_raw b fs B (Z.of_nat o) = inr (RTd (insert_at b o B)).
 Proof.
-  intros Ho. cbn. unfold remove_td.
+  intros Ho. unfold remove_td_raw.
   rewrite (all_some_map_some (fun f => insert_at (b ++ f) o B)).
   2:{ intros f _. rewrite torch_wrap_nonneg by lia. reflexivity. }
   rewrite py_insert_nonneg, length_insert_at.
@@ -198,3 +199,13 @@ Proof.
   symmetry. apply forallb_forall. intros sh Hin. apply in_map_iff in Hin. destruct Hin as [f [<- _]].
   rewrite firstn_insert_app by assumption. apply list_eqb_refl.
 Qed.
+
+Theorem unwrap_td_ok B b fs (o : Z) p :
+  torch_wrap o (length b + 1) = Some p -> unwrap1 B (OTd b fs) (LInt o) = inr (RTd (insert_at b p B)).
+Proof.
+  intros Hw. cbn. unfold remove_td. rewrite Hw. apply remove_td_raw_ok. apply torch_wrap_spec in Hw. lia.
+Qed.
+
+Theorem unwrap_td_out_of_range B b fs (o : Z) :
+  torch_wrap o (length b + 1) = None -> unwrap1 B (OTd b fs) (LInt o) = inl UIndex.
+Proof. intros Hw. cbn. unfold remove_td. now rewrite Hw. Qed.
